@@ -5,6 +5,7 @@ import JunoModel.C18.ModelSDL
 import JunoModel.C18.ModelHS
 import JunoModel.C18.ModelPipe
 import JunoModel.C18.ModelPruner
+import JunoModel.C18.ModelCompose
 /-! Line-protocol driver for the C18 models (`lake build c18drv`). See notes/C18.md for the
 request grammar. -/
 open Juno.Proto Juno.C18
@@ -76,7 +77,14 @@ def showCalls (log : List Event) : String :=
 
 def showResult : Result → String
   | .ok => "ok" | .cancelled => "err" | .errBefore => "err" | .errMigrate => "err" | .errWrite => "err"
+  | .errRead => "err"
   | .crashed => "crashed"
+
+/-- `ok` | `newer` | `optout:<i>f,<j>m,…` (`f`: named by its flag, `m`: `--migration-<j>`). -/
+def showOpenV (reg : Registry) : OpenV → String
+  | .ok => "ok"
+  | .newer => "newer"
+  | .optOut l => "optout:" ++ ",".intercalate (l.map fun i => s!"{i}{if flagNamed reg i then "f" else "m"}")
 
 def parseIst (tok : String) : Option (Nat × Bytes) :=
   match tok.splitOn ":" with
@@ -176,8 +184,18 @@ def parseSStep (tok : String) : Option SDL.Step :=
     | _ => none
   else none
 
+/-- a checkpoint is shown with the token `encodeResume` makes of it -/
 def showSRet : SDL.Ret → String
-  | .done => "done" | .rerun n => s!"rerun:{n}" | .failed => "failed" | .crashed => "crashed"
+  | .done => "done" | .rerun n => s!"rerun:{n}:{bytesToHex (SDL.encodeResume n)}" | .failed => "failed" | .crashed => "crashed"
+
+def showReaction : Reaction → String
+  | .apply => "apply" | .save st => s!"save:{bytesToHex st}" | .error => "error" | .beforeError => "before-error"
+
+def parseSRet (t : String) : Option SDL.Ret :=
+  if t == "done" then some .done else if t == "failed" then some .failed else if t == "crashed" then some .crashed
+  else match t.splitOn ":" with
+    | ["rerun", n] => n.toNat?.map .rerun
+    | _ => none
 
 /-! ### head-state encoding: `<cls|x>:<nonce|x>:<height|x>:<x | nonce,cls,height>` per address -/
 
@@ -278,24 +296,37 @@ def step (s : DrvState) (line : String) : DrvState × String :=
     match parseReg r with
     | some r =>
       if !r.ok then (s, "bad-op") else
-      (s, match newRunner s.cfg r s.disk with | .ok => "ok" | .optOut => "optout" | .downgrade => "downgrade")
+      -- the accept/refuse model and the error-returning transcription must agree (theorem newRunnerV_ok_iff)
+      if (newRunner s.cfg r s.disk == .ok) != (newRunnerV r s.disk == .ok) then (s, "model-inconsistent") else
+      (s, showOpenV r (newRunnerV r s.disk))
     | none => (s, "bad-op")
   | "run" :: r :: ca :: cr :: behs0 =>
-    let (fails, behs) := behs0.partition (fun t => t.startsWith "fail=")
+    -- options: fail=<tick> (failing runner write), rmeta (metadata read fails), rist=<i,j,…> (token reads that fail)
+    let (fails, behs1) := behs0.partition (fun t => t.startsWith "fail=")
+    let (rmetas, behs2) := behs1.partition (fun t => t == "rmeta")
+    let (rists, behs) := behs2.partition (fun t => t.startsWith "rist=")
     let fa : Option Nat := match fails with
       | [] => some 0
       | [t] => (String.ofList (t.toList.drop 5)).toNat?
       | _ => none
-    match parseReg r, ca.toNat?, cr.toNat?, behs.mapM parseBeh, fa with
-    | some r, some ca, some cr, some bl, some fa =>
+    let ri : Option (List Nat) := match rists with
+      | [] => some []
+      | [t] => parseNats (String.ofList (t.toList.drop 5))
+      | _ => none
+    match parseReg r, ca.toNat?, cr.toNat?, behs.mapM parseBeh, fa, ri with
+    | some r, some ca, some cr, some bl, some fa, some ri =>
       if !r.ok then (s, "bad-op") else
-      match newRunner s.cfg r s.disk with
-      | .optOut => (s, "refused:optout " ++ showDisk s.disk)
-      | .downgrade => (s, "refused:downgrade " ++ showDisk s.disk)
+      let st : Start := ⟨r, ⟨behOf bl, ca, cr, fa, !rmetas.isEmpty, fun i => ri.contains i⟩⟩
+      if st.env.metaReadFails then
+        -- `start` leaves the disk alone (theorem read_error_is_not_progress)
+        (s, s!"readerr {showDisk (start s.cfg s.disk st).1}")
+      else if (newRunner s.cfg r s.disk == .ok) != (newRunnerV r s.disk == .ok) then (s, "model-inconsistent")
+      else match newRunnerV r s.disk with
       | .ok =>
-        let (rs, res) := run s.cfg r ⟨behOf bl, ca, cr, fa⟩ s.disk
+        let (rs, res) := run s.cfg r st.env s.disk
         ({ s with disk := rs.disk }, s!"{showResult res} {showDisk rs.disk} calls={showCalls rs.log}")
-    | _, _, _, _, _ => (s, "bad-op")
+      | v => (s, s!"refused:{showOpenV r v} {showDisk s.disk}")
+    | _, _, _, _, _, _ => (s, "bad-op")
   | "bt.set" :: h :: blks =>
     let h? : Option (Option Nat) := if h == "none" then some none else h.toNat?.map some
     match h?, blks.mapM parseBlk with
@@ -328,6 +359,33 @@ def step (s : DrvState) (line : String) : DrvState × String :=
       let l := (List.range s.sdlN).map fun b => showSBlk (db'.blk b)
       ({ s with sdl := db' }, s!"{showSRet r} {if l.isEmpty then "-" else " ".intercalate l}")
     | _, _ => (s, "bad-op")
+  | ["sdl.before", tok] =>
+    -- `nil` = nothing stored; otherwise the stored bytes
+    let t? : Option (Option Bytes) := if tok == "nil" then some none else (hexToBytes? tok).map some
+    match t? with
+    | some t => (s, match SDL.before t with | some n => s!"ok {n}" | none => "err")
+    | none => (s, "bad-op")
+  | ["sdl.encode", n] =>
+    match n.toNat? with
+    | some n => if n < 2 ^ 64 then (s, bytesToHex (SDL.encodeResume n)) else (s, "bad-op")
+    | none => (s, "bad-op")
+  | ["glue", mig, ret, c] =>
+    -- how the runner reacts to what the data model says `Migrate` returned (`c`: context cancelled)
+    match bool? c with
+    | none => (s, "bad-op")
+    | some c =>
+      let r? : Option MigStep :=
+        if mig == "sdl" then (parseSRet ret).map sdlRet
+        else if mig == "bt" then
+          (if ret == "done" then some BlockTx.Ret.done else if ret == "rerun" then some .rerun
+           else if ret == "failed" then some .failed else none).map btRet
+        else if mig == "hs" then
+          (if ret == "done" then some HS.Ret.done else if ret == "rerun" then some .rerun
+           else if ret == "failed" then some .failed else none).map hsRet
+        else none
+      match r? with
+      | some r => (s, showReaction (reaction s.cfg r c))
+      | none => (s, "bad-op")
   | "hs.set" :: accts =>
     match accts.mapM parseAcct with
     | some l =>
